@@ -88,6 +88,21 @@ type session struct {
 
 func newSession() *session { return &session{lockers: map[int]app.DataScopeLocker{}} }
 
+// startID is start that also reports the id of the goroutine it created.
+func startID(f func() string) (chan string, int64) {
+	ch := make(chan string, 1)
+	idc := make(chan int64, 1)
+	go func() {
+		idc <- hx.GoID()
+		var res string
+		if p, _ := hx.Guard(func() { res = f() }); p {
+			res = "panic"
+		}
+		ch <- res
+	}()
+	return ch, <-idc
+}
+
 // start runs f in its own goroutine; a panic is the result "panic".
 func start(f func() string) chan string {
 	ch := make(chan string, 1)
@@ -297,9 +312,23 @@ func (se *session) exec(line string) string {
 		// expected to block until some later commit: it must not return now
 		pid := se.nextPid
 		se.nextPid++
-		ch := start(run)
-		if r, ok := await(ch, probeGrace); ok {
-			return r // it returned while the mutex is held: the line differs from the model's `blocked`
+		ch, gid := startID(run)
+		// The model says this call parks on a scope's RWMutex.  Wait (generously) until it has either
+		// returned - then the line differs from the model's `blocked` - or the runtime reports its
+		// goroutine parked on a lock.  Never conclude "blocked" from elapsed time alone: on a loaded
+		// machine the goroutine may not have run yet, and later ops of the history would then change
+		// what it is going to see.
+		deadline := time.Now().Add(mustFinish)
+		for wait := probeGrace; ; wait *= 2 {
+			if r, ok := await(ch, wait); ok {
+				return r
+			}
+			if st, ok := hx.GoroutineStatus(gid); ok && hx.ParkedOnLock(st) {
+				break
+			}
+			if time.Now().After(deadline) {
+				break // neither returned nor parked: reported like a parked call, the commit decides
+			}
 		}
 		se.pending = append(se.pending, &probe{pid: pid, done: ch})
 		return fmt.Sprintf("blocked %d", pid)
